@@ -4,6 +4,7 @@ import (
 	"encoding/json"
 	"errors"
 	"fmt"
+	"math"
 
 	"github.com/twpayne/go-geom"
 
@@ -23,7 +24,7 @@ type c01Case struct {
 func init() {
 	engine.Register(&engine.Check{
 		ID: "C01", Level: "exploration",
-		Rule: "every shape of the universe U (7 types x layouts XY,XYZ,XYM,XYZM,Layout(5),Layout(7) + NoLayout empties; part sizes 0..2, <=3 parts, <=3 (quick 2) polygons of <=2 rings) built by SetCoords, by New*Flat from the model's own flattening and by Push, plus Clone; special-float sweep (9 values x every ordinate position); every single-coordinate length mismatch (stride-1, stride+1, 0, nil) at every position. distinct_nontrivial = distinct (model, mode, mismatch) cases with at least one coordinate or one part",
+		Rule: "every shape of the universe U (7 types x layouts XY,XYZ,XYM,XYZM,Layout(5),Layout(7) + NoLayout empties; part sizes 0..2, <=3 parts, <=3 (quick 2) polygons of <=2 rings) built by SetCoords, by New*Flat from the model's own flattening, by Push and (points) by NewPointFlatMaybeEmpty, plus Clone; special-float sweep (9 values x every ordinate position); every single-coordinate length mismatch (stride-1, stride+1, 0, nil) at every position. distinct_nontrivial = distinct (model, mode, mismatch) cases with at least one coordinate or one part",
 		Run:    c01Run,
 		Replay: func(c *engine.Ctx, kind string, raw json.RawMessage) { c01Exec(c, decodeCase[c01Case](raw)) },
 		Assumptions: []string{
@@ -51,8 +52,27 @@ func c01Run(c *engine.Ctx) {
 	c.Note("base_models", len(bases))
 	c.Parallel(len(bases), func(i int) {
 		g := bases[i]
-		for _, mode := range []string{"setcoords", "flat", "push"} {
+		for _, mode := range []string{"setcoords", "flat", "push", "maybeempty"} {
 			c01Exec(c, c01Case{G: g, Mode: mode})
+		}
+		if g.Kind == ref.Point && g.C0 != nil {
+			// every ordinate special at once (the empty-point marker and its near misses)
+			for _, sv := range ref.SpecialFloats {
+				for skip := -1; skip < len(g.C0); skip++ {
+					h := g.Clone()
+					for k := range h.C0 {
+						if k != skip {
+							h.C0[k] = ref.F(sv)
+						}
+					}
+					if skip >= 0 {
+						h.C0[skip] = ref.F(ref.SpecialFloats[0])
+					}
+					for _, mode := range []string{"setcoords", "flat", "maybeempty"} {
+						c01Exec(c, c01Case{G: h, Mode: mode})
+					}
+				}
+			}
 		}
 		n := g.NumOrdinates()
 		sweep := g.Kind != ref.MultiPolygon || len(g.C3) <= 2 || c.Thorough()
@@ -67,7 +87,7 @@ func c01Run(c *engine.Ctx) {
 						}
 						k++
 					})
-					for _, mode := range []string{"setcoords", "flat", "push"} {
+					for _, mode := range []string{"setcoords", "flat", "push", "maybeempty"} {
 						c01Exec(c, c01Case{G: h, Mode: mode})
 					}
 				}
@@ -307,6 +327,10 @@ func c01Exec(c *engine.Ctx, cs c01Case) {
 			t = buildFlat(g)
 		case "push":
 			t, err = buildPush(g)
+		case "maybeempty":
+			if g.Kind == ref.Point && g.C0 != nil {
+				t = geom.NewPointFlatMaybeEmpty(g.Layout, g.C0.Floats())
+			}
 		}
 	})
 	if p != nil {
@@ -319,6 +343,18 @@ func c01Exec(c *engine.Ctx, cs c01Case) {
 	}
 	if t == nil {
 		return // push mode on a single-part kind
+	}
+	if cs.Mode == "maybeempty" {
+		// only the all-canonical-NaN coordinate is the empty point; every other bit pattern is kept
+		all := true
+		for _, v := range g.C0 {
+			if math.Float64bits(float64(v)) != geom.PointEmptyCoordHex {
+				all = false
+			}
+		}
+		if all {
+			g = &ref.G{Kind: ref.Point, Layout: g.Layout}
+		}
 	}
 	check := func(t geom.T, tag string) bool {
 		var werr error
